@@ -58,6 +58,7 @@ func local(sel map[string]string) svcOpt {
 }
 func selector(sel map[string]string) svcOpt { return func(s *v1.Service) { s.Spec.Selector = sel } }
 func lbIP(ip string) svcOpt                 { return func(s *v1.Service) { s.Spec.LoadBalancerIP = ip } }
+func lbClass(c string) svcOpt                { return func(s *v1.Service) { s.Spec.LoadBalancerClass = &c } }
 func clusterIPType() svcOpt                 { return func(s *v1.Service) { s.Spec.Type = v1.ServiceTypeClusterIP } }
 func svcLabels(l map[string]string) svcOpt     { return func(s *v1.Service) { s.Labels = l } }
 func noClusterIP() svcOpt {
@@ -331,6 +332,13 @@ func universes(thorough bool) []*universe {
 	r5 := mkUniverse("restart-terminating-holder", ns12[:1], [][]metallbv1beta1.IPAddressPool{restartLayouts[2], restartLayouts[0]}, slots3, restartVs, map[int][]int{0: {0}, 1: {0, 1}, 2: {0, 1}})
 	r5.Preload = []preSvc{{Slot: 0, Variant: 0, Status: []string{"10.0.0.0"}, FromPool: "a", Terminating: true}, {Slot: 1, Variant: 0, Status: []string{"10.0.0.1"}, FromPool: "a"}, {Slot: 2, Variant: 0}}
 	us = append(us, r5)
+
+	// a controller started with --lb-class: every Service carries that class (Services of another class are not its business;
+	// the deletion of one of its own Services still is)
+	lc := mkUniverse("lbclass", ns12[:1], [][]metallbv1beta1.IPAddressPool{{mkPool("a", []string{"10.0.0.0/32"}, nil)}, restartLayouts[2]}, slots3[:2],
+		[]namedVariant{{"p80-class-x", mkSvc(lbClass("x"))}, {"p443-k1-class-x", mkSvc(ports(443), share("k1"), lbClass("x"))}, {"p8080-k1-class-x", mkSvc(ports(8080), share("k1"), lbClass("x"))}}, nil)
+	lc.LBClass = "x"
+	us = append(us, lc)
 
 	us = append(us, mkUniverse("reconf", ns12, reLayouts, []slotT{{"ns1", "s1"}, {"ns1", "s2"}, {"ns2", "s3"}}, reVs, map[int][]int{2: {0, 2}}))
 	return us
